@@ -101,6 +101,8 @@ template <class S> static void oracle_schur(int n, const std::vector<double>& da
     const std::string tag = std::string("oracle_schur_") + SName<S>::get();
     Spectra::UpperHessenbergSchur<S> sch;
     try { sch.compute(H); }
+    catch (const std::runtime_error& e) { if (pat == "day_stall") { out.count(tag + "_cap_exception_allowed"); return; }   // the property allows the documented iteration-limit exception; this family is built to stall
+        out.fail("schur-exception", std::string("UpperHessenbergSchur<") + SName<S>::get() + "> threw on a finite upper Hessenberg matrix: " + e.what(), rj); out.count(tag + "_throw"); return; }
     catch (const std::exception& e) { out.fail("schur-exception", std::string("UpperHessenbergSchur<") + SName<S>::get() + "> threw on a finite upper Hessenberg matrix: " + e.what(), rj); out.count(tag + "_throw"); return; }
     out.count(tag);
     Mat T = sch.matrix_T(), U = sch.matrix_U();
@@ -141,6 +143,8 @@ template <class S> static void oracle_hesseig(int n, const std::vector<double>& 
     const std::string tag = std::string("oracle_hesseig_") + SName<S>::get();
     Spectra::UpperHessenbergEigen<S> eig;
     try { eig.compute(H); }
+    catch (const std::runtime_error& e) { if (pat == "day_stall") { out.count(tag + "_cap_exception_allowed"); return; }
+        out.fail("hesseig-exception", std::string("UpperHessenbergEigen<") + SName<S>::get() + "> threw on a finite upper Hessenberg matrix: " + e.what(), rj); out.count(tag + "_throw"); return; }
     catch (const std::exception& e) { out.fail("hesseig-exception", std::string("UpperHessenbergEigen<") + SName<S>::get() + "> threw on a finite upper Hessenberg matrix: " + e.what(), rj); out.count(tag + "_throw"); return; }
     out.count(tag);
     Eigen::Matrix<C, Eigen::Dynamic, 1> ev = eig.eigenvalues(); Eigen::Matrix<C, Eigen::Dynamic, Eigen::Dynamic> V = eig.eigenvectors();
@@ -233,8 +237,8 @@ static std::vector<double> gen_tridiag(Rng& g, int n, int pat, int bigexp) {
 }
 
 static const char* HPAT[] = {"random", "integer", "graded", "zerosub", "triangular_repeated", "companion", "companion_defective", "jordan", "zero", "scaled_up", "scaled_down",
-                             "cyclic", "orthogonal", "blockrep", "symtridiag", "identity", "tinysub", "jordan_perturbed", "defective_2x2"};
-static const int NHPAT = 19;
+                             "cyclic", "orthogonal", "blockrep", "symtridiag", "identity", "tinysub", "jordan_perturbed", "defective_2x2", "day_stall"};
+static const int NHPAT = 20;
 static std::vector<double> gen_hess(Rng& g, int n, int pat, int bigexp) {
     std::vector<double> v((size_t) n * n, 0.0);
     auto H = [&](int i, int j) -> double& { return v[i + (size_t) j * n]; };
@@ -266,9 +270,15 @@ static std::vector<double> gen_hess(Rng& g, int n, int pat, int bigexp) {
     case 15: { double a = g.coin() ? 1.0 : g.sym(); for (int i = 0; i < n; i++) H(i, i) = a; break; }
     case 16: fill_random(1.0); for (int i = 0; i + 1 < n; i++) H(i + 1, i) *= std::ldexp(1.0, -g.range(20, 70)); break;
     case 17: { double a = g.range(-2, 2); for (int i = 0; i < n; i++) { H(i, i) = a; if (i + 1 < n) { H(i, i + 1) = 1.0; H(i + 1, i) = g.coin(0.5) ? 0.0 : std::ldexp(g.sym(), -g.range(10, 50)); } } break; }
-    default: { // leading 2x2 block [[d+2p, b], [c, d]] with b*c = -p^2 up to a few ulps (numerically double real eigenvalue), decoupled from an upper triangular rest
+    case 18: { // leading 2x2 block [[d+2p, b], [c, d]] with b*c = -p^2 up to a few ulps (numerically double real eigenvalue), decoupled from an upper triangular rest
         double p = g.sym(), b = g.sym() * 3, dd = g.sym(); if (b == 0) b = 1; double c = -(p * p) / b; c = bitsd(dbits(c) + (uint64_t) (int64_t) g.range(-3, 3));
         H(0, 0) = dd + 2 * p; H(0, 1) = b; H(1, 0) = c; H(1, 1) = dd; for (int j = 2; j < n; j++) for (int i = 0; i <= j; i++) H(i, j) = g.sym(); break; }
+    default: { // Day's matrix [0 1 0 0; 1 0 h 0; 0 -h 0 1; 0 0 1 0] (the Francis iteration stalls for 10..30+ sweeps, so the exceptional
+        // shifts at iterations 10 and 30 are exercised), decoupled from an upper triangular rest; needs n >= 4, else random
+        if (n < 4) { fill_random(1.0); break; }
+        double h = std::pow(10.0, -2.0 - 4.0 * g.unit()); double sc = g.coin(0.3) ? std::ldexp(1.0, g.range(-20, 20)) : 1.0;
+        H(0, 1) = sc; H(1, 0) = sc; H(1, 2) = h * sc; H(2, 1) = -h * sc; H(2, 3) = sc; H(3, 2) = sc;
+        for (int j = 4; j < n; j++) for (int i = 4; i <= j; i++) H(i, j) = g.sym() * sc; break; }
     }
     return v;
 }
